@@ -234,6 +234,14 @@ def styled_new(kind, seed):
             v.apply_formatting(AnsiSetting(R['U']), 1, 2)
             return v
         return mk, ('styled', 'zy', [(R['G'],), (R['G'], R['U'])])
+    if kind == 'restart':
+        # the replacement starts with the role the layouts use (so the seam merge fires) and that setting is
+        # stopped and restarted inside it (apply topmost=False)
+        def mk2():
+            v = AnsiString('zyx', AnsiSetting(R['R']))
+            v.apply_formatting(AnsiSetting(R['U']), 1, 2, topmost=False)
+            return v
+        return mk2, ('styled', 'zyx', [(R['R'],), (R['U'], R['R']), (R['R'],)])
     if kind == 'str':
         return (lambda: AnsiStr('z', AnsiSetting(R['G']))), ('styled', 'z', [(R['G'],)])
     raise env.HarnessError(kind)
@@ -317,7 +325,7 @@ def probes_main(text, b):
     for old in pats:
         if old not in text:
             continue
-        for new in ('', 'z', 'zz', ['styled', 'one'], ['styled', 'two'], ['styled', 'str'], old):
+        for new in ('', 'z', 'zz', ['styled', 'one'], ['styled', 'two'], ['styled', 'str'], ['styled', 'restart'], old):
             for k in (-1, -2, 0, 1, 2):
                 yield 'replace', [old, new, k]
 
